@@ -490,6 +490,10 @@ def peak_occupancy(tree, arch: S.Arch, wl: S.WL, persistent=()):
             if len(js) >= 2:
                 users[k] = js
         users = {k: js for k, js in users.items() if js}
+        # persistent tensors live throughout: their backing allocation spans every branch
+        for k in list(users):
+            if k[1] in persistent and k[1] not in held:
+                users[k] = list(range(len(branches)))
         sizes = {}
         held_pre = held | {k[1] for k in pre}
         for j, br in enumerate(branches):
